@@ -39,15 +39,34 @@ theorem nl_names (qvs : List String) : Token.newLine ∉ qvs.map nameTok := by
   intro s _ h
   exact (nameTok_not_punct s).2.2 h
 
-theorem blockOk_of_nlKind (F : NumFmt) (i : Instruction) (hp : parsedInstr i = true) (hk : nlKind i = true)
+/-- the lists whose emptiness would make a definition's text end right after the colon: non-empty -/
+def shapeOk (F : NumFmt) : Instruction → Bool
+  | .measureCalibrationDefinition _ body => !body.isEmpty
+  | .circuitDefinition _ _ _ body => !body.isEmpty
+  | .gateDefinition g => !(specLineList F g.specification).isEmpty
+  | _ => true
+
+theorem shapeOk_of_parsed (F : NumFmt) (i : Instruction) (hp : parsedInstr i = true) : shapeOk F i = true := by
+  cases i with
+  | measureCalibrationDefinition id body =>
+    simp only [parsedInstr, Bool.and_eq_true] at hp; exact hp.1.2
+  | circuitDefinition name ps qvs body =>
+    simp only [parsedInstr, Bool.and_eq_true] at hp; exact hp.1.2
+  | gateDefinition g =>
+    simp only [parsedInstr] at hp
+    have := specLineList_ne F g.specification hp
+    simpa [shapeOk] using this
+  | _ => rfl
+
+theorem blockOk_of_nlKind (F : NumFmt) (i : Instruction) (hp : shapeOk F i = true) (hk : nlKind i = true)
     (hn : numTokInstr F i = true) : blockOk (lineToks F i) = true := by
   cases i with
   | measureCalibrationDefinition id body =>
-    simp only [parsedInstr, Bool.and_eq_true, Bool.not_eq_true', List.isEmpty_eq_false_iff] at hp
+    simp only [shapeOk, Bool.not_eq_true', List.isEmpty_eq_false_iff] at hp
     simp only [numTokInstr, numTokInstrs_eq_all] at hn
     simp only [nlKind] at hk
     cases hb : body with
-    | nil => exact absurd hb hp.1.2
+    | nil => exact absurd hb hp
     | cons b bs =>
       subst hb
       rw [lineToks_measureCal]
@@ -58,11 +77,11 @@ theorem blockOk_of_nlKind (F : NumFmt) (i : Instruction) (hp : parsedInstr i = t
           cases id.target <;> simp [targetToks', identTok]) hk hn
       simpa using this
   | circuitDefinition name ps qvs body =>
-    simp only [parsedInstr, Bool.and_eq_true, Bool.not_eq_true', List.isEmpty_eq_false_iff] at hp
+    simp only [shapeOk, Bool.not_eq_true', List.isEmpty_eq_false_iff] at hp
     simp only [numTokInstr, numTokInstrs_eq_all] at hn
     simp only [nlKind] at hk
     cases hb : body with
-    | nil => exact absurd hb hp.1.2
+    | nil => exact absurd hb hp
     | cons b bs =>
       subst hb
       rw [lineToks_circuit]
@@ -72,36 +91,44 @@ theorem blockOk_of_nlKind (F : NumFmt) (i : Instruction) (hp : parsedInstr i = t
           exact ⟨by simp [cmd], by simp [identTok], nl_varParams _, nl_names _, by simp⟩) hk hn
       simpa using this
   | gateDefinition g =>
-    simp only [parsedInstr] at hp
+    simp only [shapeOk, Bool.not_eq_true', List.isEmpty_eq_false_iff] at hp
     simp only [numTokInstr] at hn
-    exact blockOk_gateDefinition F g hp hn
+    exact blockOk_gateDefinition' F g hp hn
   | _ => simp [nlKind] at hk
 
-theorem blockOk_lineToks (F : NumFmt) (i : Instruction) (hp : parsedInstr i = true) (hk : provedKind i = true)
+theorem blockOk_lineToks' (F : NumFmt) (i : Instruction) (hp : shapeOk F i = true) (hk : provedKind i = true)
     (hn : numTokInstr F i = true) : blockOk (lineToks F i) = true := by
   rcases provedKind_cases hk with h | h
   · rw [lineToks_of_blockKind F i h hn]; exact blockOk_of_blockKind F i h hn
   · exact blockOk_of_nlKind F i hp h hn
 
-theorem lineToks_head (F : NumFmt) (i : Instruction) (hp : parsedInstr i = true) (hk : provedKind i = true)
+theorem blockOk_lineToks (F : NumFmt) (i : Instruction) (hp : parsedInstr i = true) (hk : provedKind i = true)
+    (hn : numTokInstr F i = true) : blockOk (lineToks F i) = true :=
+  blockOk_lineToks' F i (shapeOk_of_parsed F i hp) hk hn
+
+theorem lineToks_head' (F : NumFmt) (i : Instruction) (hp : shapeOk F i = true) (hk : provedKind i = true)
     (hn : numTokInstr F i = true) : ∃ t r, lineToks F i = t :: r ∧ startTok t = true := by
   rcases provedKind_cases hk with h | h
   · rw [lineToks_of_blockKind F i h hn]; exact toks_head F i
   · cases i with
     | measureCalibrationDefinition id body =>
-      simp only [parsedInstr, Bool.and_eq_true, Bool.not_eq_true', List.isEmpty_eq_false_iff] at hp
+      simp only [shapeOk, Bool.not_eq_true', List.isEmpty_eq_false_iff] at hp
       cases hb : body with
-      | nil => exact absurd hb hp.1.2
+      | nil => exact absurd hb hp
       | cons b bs => rw [lineToks_measureCal]; exact ⟨_, _, rfl, rfl⟩
     | circuitDefinition name ps qvs body =>
-      simp only [parsedInstr, Bool.and_eq_true, Bool.not_eq_true', List.isEmpty_eq_false_iff] at hp
+      simp only [shapeOk, Bool.not_eq_true', List.isEmpty_eq_false_iff] at hp
       cases hb : body with
-      | nil => exact absurd hb hp.1.2
+      | nil => exact absurd hb hp
       | cons b bs => rw [lineToks_circuit]; exact ⟨_, _, rfl, rfl⟩
     | gateDefinition g =>
-      simp only [parsedInstr] at hp
-      exact lineToks_gateDefinition_head F g hp
+      simp only [shapeOk, Bool.not_eq_true', List.isEmpty_eq_false_iff] at hp
+      exact lineToks_gateDefinition_head' F g hp
     | _ => simp [nlKind] at h
+
+theorem lineToks_head (F : NumFmt) (i : Instruction) (hp : parsedInstr i = true) (hk : provedKind i = true)
+    (hn : numTokInstr F i = true) : ∃ t r, lineToks F i = t :: r ∧ startTok t = true :=
+  lineToks_head' F i (shapeOk_of_parsed F i hp) hk hn
 
 theorem length_stripNL_le (ts : List Token) : (stripNL ts).length ≤ ts.length := by
   unfold stripNL; split <;> simp
@@ -200,6 +227,49 @@ theorem length_body_le (F : NumFmt) (body : List Instruction) (i : Instruction) 
   have := length_flatMap_mem (calItemToks F) body i hi
   simp only [calItemToks, List.length_cons] at this
   omega
+
+/-- DEFCAL MEASURE whose body instructions round-trip (to `g i`) at every sufficient fuel -/
+theorem rt_measureCal_of (F : NumFmt) (d : Nat) (id : MeasureCalibrationIdentifier) (body : List Instruction)
+    (g : Instruction → Instruction) (hq : noPlaceholder id.qubit = true) (hne : body ≠ [])
+    (hbody : ∀ d', ∀ i ∈ body, (toks F i).length ≤ d' → RT F d' i (g i))
+    (hd : (lineToks F (.measureCalibrationDefinition id body)).length ≤ d) :
+    RTtopL (lineToks F (.measureCalibrationDefinition id body)) d
+      (.measureCalibrationDefinition id (body.map g)) := by
+  cases hb : body with
+  | nil => exact absurd hb hne
+  | cons b bs =>
+    subst hb
+    cases d with
+    | zero => rw [lineToks_measureCal] at hd; simp at hd
+    | succ d =>
+      apply rt_measureCal_gen F d id (b :: bs) g hq hne
+      intro i hi
+      apply hbody d i hi
+      rw [lineToks_measureCal] at hd
+      have := length_body_le F (b :: bs) i hi
+      simp only [List.length_append, List.length_cons] at hd
+      omega
+
+/-- DEFCIRCUIT whose body instructions round-trip (to `g i`) at every sufficient fuel -/
+theorem rt_circuit_of (F : NumFmt) (d : Nat) (name : String) (ps qvs : List String) (body : List Instruction)
+    (g : Instruction → Instruction) (hqv : qvs.all (fun s => !isReservedWord s.toList) = true)
+    (hne : body ≠ []) (hbody : ∀ d', ∀ i ∈ body, (toks F i).length ≤ d' → RT F d' i (g i))
+    (hd : (lineToks F (.circuitDefinition name ps qvs body)).length ≤ d) :
+    RTtopL (lineToks F (.circuitDefinition name ps qvs body)) d (.circuitDefinition name ps qvs (body.map g)) := by
+  cases hb : body with
+  | nil => exact absurd hb hne
+  | cons b bs =>
+    subst hb
+    cases d with
+    | zero => rw [lineToks_circuit] at hd; simp at hd
+    | succ d =>
+      apply rt_circuit_gen F d name ps qvs (b :: bs) g hqv hne
+      intro i hi
+      apply hbody d i hi
+      rw [lineToks_circuit] at hd
+      have := length_body_le F (b :: bs) i hi
+      simp only [List.length_append, List.length_cons] at hd
+      omega
 
 /-- the per-kind lemmas for every proved kind, for the line tokens -/
 theorem rt_of_provedKind (F : NumFmt) (d : Nat) (i : Instruction) (hp : parsedInstr i = true)
